@@ -157,6 +157,18 @@ def cases():
     add("raw:push+raw:assign", "reject", fn(RAW, "p1", E1, "    if self.a:", "        self.o2 ^= self.d"), fn(RAW, "p2", E1, "    self.o2 <<= 1"))
     add("raw:push-slice+seq-other-slice", "reject", fn(RAW, "p1", E1, "    sb[1:0] ^= self.d[1:0]"), fn(SEQ, "p2", "sb[3:2] <<= self.d[3:2]"), fn(CON, "c3", "self.o2 <<= sb.unsigned"))
     add("raw:push-local-signal+conc", "reject", fn(RAW, "p1", "nonlocal s", E1, "    s ^= self.d"), fn(CON, "c2", "nonlocal s", "s <<= 1"))
+    # --- several contexts created by the SAME source lines (helper called twice, loop, std.concurrent_assign) ------------
+    MK = ["def mk(t, v):", "    @std.concurrent", "    def driver():", "        t.next = v"]
+    MKS = ["def mks(t, v):", "    @std.sequential(clk)", "    def driver():", "        t.next = v"]
+    add("same-origin:helper-twice-different-targets", "accept", MK + ["mk(s, self.d)", "mk(s2, 1)"], fn(CON, "c3", "self.o2 <<= s2"))
+    add("same-origin:helper-twice-same-target", "reject", MK + ["mk(s, self.d)", "mk(s, 1)"])
+    add("same-origin:seq-helper-twice-same-target", "reject", MKS + ["mks(s, self.d)", "mks(s, 1)"])
+    add("same-origin:helper+explicit", "reject", MK + ["mk(s, self.d)"], fn(SEQ, "p2", "nonlocal s", "s <<= 1"))
+    add("same-origin:loop-same-target", "reject", ["for k in range(2):", "    @std.sequential(clk)", "    def looped():", "        s.next = self.d + k"])
+    add("same-origin:loop-disjoint-slices", "reject", ["for k in range(2):", "    @std.concurrent", "    def looped():", "        sb[2 * k + 1 : 2 * k] <<= self.d[1:0]"], fn(CON, "c3", "self.o2 <<= sb.unsigned"))
+    add("same-origin:concurrent_assign-twice", "reject", ["std.concurrent_assign(s, self.d)", "std.concurrent_assign(s, Unsigned[4](1))"])
+    add("same-origin:concurrent_assign-different-targets", "accept", ["std.concurrent_assign(s, self.d)", "std.concurrent_assign(s2, s)"], fn(CON, "c3", "self.o2 <<= s2"))
+    add("same-origin:concurrent_eval-twice", "reject", ["std.concurrent_eval(s, lambda: self.d + 1)", "std.concurrent_eval(s, lambda: self.d + 2)"])
     # --- code hoisted out of a process with cohdl.always: nothing of it may stay behind as a process variable ------------
     add("always:runtime-index-of-vector", "accept", fn(SEQ, "p1", "nonlocal s", "with cohdl.always:", "    self.ob <<= sb[self.d[1:0].unsigned]", "s <<= self.d"), fn(CON, "c2", "sb.next = self.d.bitvector"))
     add("always:runtime-index-of-array", "accept", fn(SEQ, "p1", "mem[0] <<= self.d", "self.o2 <<= cohdl.always(mem[self.d[1:0].unsigned])"))
